@@ -71,11 +71,11 @@ CHECKS = {
    note="Share points from OsRng; lengths to 3 kB quick / 100 kB thorough."),
  "C17": dict(cat="exploration", design="5/C17",
    technique="property-based testing (proptest): differential against the core API",
-   text="create_share output parsed independently (serde_json, base64) and compared with MessageGenerator::share_with_local_randomness; group_shares returns the clients' key iff >= t distinct shares, never under another epoch, nothing for mixed groupings below threshold or t = 0; epochs include empty and multi-byte strings.",
+   text="create_share output parsed independently (serde_json, base64) and compared with MessageGenerator::share_with_local_randomness; group_shares returns the clients' key iff >= t distinct shares, never under another epoch, nothing for mixed groupings below threshold or t = 0; epochs include empty, multi-byte and long strings (up to 600 characters, lengths around 64, 128, 256).",
    note="wasm_bindgen functions are called natively on the host target."),
  "C18": dict(cat="exploration", design="5/C18",
    technique="property-based testing (proptest): expected-multiset oracle under permutations and worker-pool sizes",
-   text="Generated report multisets (group sizes around t, up to 40 / 400 groups, aux absent/empty/bytes), each run in grouped order, permuted order and under two rayon pool sizes; output must equal the multiset of groups with >= t reports with exactly their associated data.",
+   text="Generated report multisets (group sizes around t, up to 40 / 400 groups, aux absent/empty/bytes), each run in grouped order, permuted order and under two rayon pool sizes; output must equal the multiset of groups with >= t reports with exactly their associated data. A second sub-check runs single calls with more than 16384 / 32768 reports whose qualifying measurements have reports at both ends of the input.",
    note="Schedules only through pool size; empty and absent associated data compared as equal for this reference utility (asserted exactly in C01)."),
 }
 PENDING = {}
